@@ -38,9 +38,7 @@ def sym_topic_actor(ctx, p, n, deleted=None):
                      topics=MapM([(reg, own, ArcTok(p.fresh('own_topic_tok'), 'Topic')), (other_u, oname, ArcTok(p.fresh('other_topic_tok'), 'Topic'))]),
                      next_id=S(p.fresh('t_next'), 'u32')), 'tmgr-state')
     delegate = mk(ctx, 'TopicManagerDelegate', state=ArcCell(Cell(LockM('topic_manager.state', mstate))))
-    nmsgs = p.fresh('topic_msgs')
-    p.assume(z3.And(nmsgs >= 0, nmsgs <= 2))
-    actor = mk(ctx, 'TopicActor', info=mk(ctx, 'TopicInfo', name=own), messages=Seq([ArcTok(p.fresh('tm0'), 'TopicMessage'), ArcTok(p.fresh('tm1'), 'TopicMessage')], nmsgs),
+    actor = mk(ctx, 'TopicActor', info=mk(ctx, 'TopicInfo', name=own), messages=Seq([ArcTok(p.fresh('tm0'), 'TopicMessage')], 1),
                subscriptions=mp, delegate=delegate, topic_internal_id=S(p.fresh('tid'), 'u32'), next_message_id=S(p.fresh('nmid'), 'u32'),
                deleted=S(dele, 'bool'))
     p.assume(z3.And(actor.fields[4].t >= 0, actor.fields[4].t < (1 << 32), actor.fields[5].t >= 0, actor.fields[5].t < (1 << 31)))
